@@ -87,9 +87,21 @@ def clifford_ops(draw, n, max_len=60, allow_macros=True):
 @st.composite
 def circuit_case(draw, ns=(2, 3, 4, 5, 6), max_len=60):
     n, name = draw(config_strategy(ns))
-    kind = draw(st.sampled_from(["random", "random", "graph+local"]))
+    kind = draw(st.sampled_from(["random", "random", "graph+local", "routed"]))
     if kind == "random":
         ops = draw(clifford_ops(n, max_len))
+    elif kind == "routed":
+        # a circuit that already respects the connectivity: few two-qubit gates (swaps included), all on coupled pairs
+        edges = sorted(coupling.edge_set(n, name))
+        ops = []
+        for _ in range(draw(st.integers(1, min(12, max_len)))):
+            if draw(st.integers(0, 2)) == 0:
+                a, b = draw(st.sampled_from(edges))
+                if draw(st.booleans()):
+                    a, b = b, a
+                ops.append([draw(st.sampled_from(GATE2)), [a, b]])
+            else:
+                ops.append([draw(st.sampled_from(["h", "s", "sdg", "h", "x", "z"])), [draw(st.integers(0, n - 1))]])
     else:
         gid = draw(st.integers(0, (1 << (n * (n - 1) // 2)) - 1))
         ops = [["h", [q]] for q in range(n)] + [["cz", list(e)] for e in lc.edges_from_gid(n, gid)]
